@@ -9,10 +9,20 @@ CHECKS = {
             'modification variants, coverage over all lists of <=2 queries, compared state by state with a brute-force '
             'offset scan', 'DESIGN.md section 4 / C16'),
 }
+CHECKS['C01'] = ('deviation-bounded product space (<=3 quick / <=4 thorough simultaneous notation features out of 12 slots, '
+                 'tiered spelling alphabets from a 90-entry catalogue) over abstract peptides rendered by an independent '
+                 'ProForma writer; all ordered pairs/triples of 10 chains x link words; parse fields, re-parse equality '
+                 'and re-serialisation fixpoint checked on every state for both plus spellings and both include_plus '
+                 'values', 'DESIGN.md section 4 / C01')
 NOT_APPLICABLE = {}
 
 
 def main():
+    for i in range(1, 21):
+        pid = f'C{i:02d}'
+        if pid not in CHECKS and pid not in NOT_APPLICABLE:
+            NOT_APPLICABLE[pid] = ('not claimed yet: the bounded-exhaustive check for this property is planned '
+                                   '(DESIGN.md sections 4 and 9) but not built/validated at this commit')
     checks = []
     for pid, (text, ref) in sorted(CHECKS.items()):
         checks.append({
